@@ -1,6 +1,7 @@
 (* C20 — property theorems only (see design_notes/C20.md for what is and is not covered). *)
 From SwayV Require Import Base.Util C21.Str C21.Model C20.Model C20.Spec C20.StrLemmas C20.SrcProofs
-     C20.LineProofs C20.Refute.
+     C20.LineProofs C20.ListLemmas C20.GraphProofs C20.Refute.
+From Coq Require Import Permutation.
 
 (* Display then FromStr of a pinned source is the identity, for each of the five kinds, under the
    syntactic conditions Spec.wf_src_syn (no '?' '(' in the url, no '#' '(' in branch/tag, rev = the
@@ -38,6 +39,44 @@ Theorem C20_dep_line_roundtrip :
     = Ok (dn, pkg_string url cid ver show_url show_cid show_ver name src disambiguate, salt_of kind).
 Proof. exact rt_dep_line. Qed.
 Print Assumptions C20_dep_line_roundtrip.
+
+(* MAIN: for every well-formed resolved graph and every iteration order of the written package
+   set, reading the lock back yields a graph with the same packages and the same dependency
+   edges (names, kinds, salts) up to node numbering.  `is_lock_of g l`: l is the duplicate-free
+   list of the PkgLocks of g in any order (BTreeSet<PkgLock>); wf_graph: Spec.v. *)
+Theorem C20_lock_roundtrip :
+  forall (url cid ver : Type) (show_url : url -> str) (show_cid : cid -> str) (show_ver : ver -> str)
+         (parse_url : str -> option url) (parse_cid : str -> option cid) (parse_ver : str -> option ver)
+         (g : graph url cid ver) (l : list pkglock),
+    wf_graph url cid ver show_url show_cid show_ver parse_url parse_cid parse_ver g ->
+    is_lock_of url cid ver show_url show_cid show_ver g l ->
+    exists g', to_graph parse_url parse_cid parse_ver l = Ok g' /\ graph_equiv url cid ver g' g.
+Proof. exact lock_roundtrip. Qed.
+Print Assumptions C20_lock_roundtrip.
+
+(* Non-vacuity of wf_graph: member `app`, two packages named `std` (git branch, path) and a registry
+   package; a library edge to each `std` (disambiguated lines), a renamed contract dependency with a
+   non-zero salt. *)
+Definition ex_graph : graph str str str :=
+  {| g_nodes := [ {| gn_name := [97;112;112]%N; gn_src := PMember |};
+                  {| gn_name := [115;116;100]%N; gn_src := PGit url_a (RBranch [109]%N) commit_a |};
+                  {| gn_name := [115;116;100]%N; gn_src := PPath 171 |};
+                  {| gn_name := [116;107]%N; gn_src := PReg [116;107]%N [49]%N cid_v0 (NsDomain [102]%N) |} ];
+     g_edges := [ {| ge_from := 0; ge_to := 1; ge_name := [115;116;100]%N; ge_kind := Lib |};
+                  {| ge_from := 3; ge_to := 2; ge_name := [115;116;100]%N; ge_kind := Lib |};
+                  {| ge_from := 0; ge_to := 3; ge_name := [100;101;112]%N; ge_kind := Contract 7 |} ] |}.
+Example C20_example_wf_graph : wf_graph str str str idf idf idf acc acc acc ex_graph.
+Proof.
+  split; [|split; [|split]].
+  - repeat constructor; vm_compute; reflexivity.
+  - repeat constructor; cbn; intuition discriminate.
+  - repeat constructor; cbn; try lia; try reflexivity.
+  - repeat constructor; cbn; intuition discriminate.
+Qed.
+Example C20_example_roundtrip_computed :
+  exists g', to_graph acc acc acc (rev (from_graph_list str str str idf idf idf ex_graph)) = Ok g'
+             /\ length (g_nodes g') = 4 /\ length (g_edges g') = 3.
+Proof. eexists. vm_compute. repeat split; reflexivity. Qed.
 
 (* Non-vacuity: a git source on a branch, a registry source with a namespace, a renamed
    contract dependency with a non-zero salt on a disambiguated package. *)
